@@ -1,0 +1,52 @@
+//go:build verif
+
+// Machine-checked contracts for package worker (comment-only; see /verif/DESIGN.md).
+
+package worker
+
+//@ spec func effRetries(r int) int = ite(r <= 0, 5, r)
+//@
+//@ func (*WorkerToken).observe
+//@   property C15
+//@   modifies nothing
+//@
+//@ func (tokenError).Temporary
+//@   property C15
+//@   ensures ret0 == e.Retryable
+//@   modifies nothing
+//@
+//@ func (*WorkerToken).doOnce
+//@   property C15
+//@   ghost httpResp *http.Response = nil
+//@   ghost doErr error = nil
+//@   ghost sent bool = false
+//@   ghost decodeErr error = nil
+//@   ghost decoded bool = false
+//@   on call (*net/http.Client).Do(_, _) ret (r, e): httpResp = r; doErr = e; sent = true
+//@   on call encoding/json.Unmarshal(_, _) ret (e): decodeErr = e; decoded = true
+//@   ensures @success_needs_200 ret1 == nil ==> sent && doErr == nil && httpResp.StatusCode == 200
+//@   ensures @success_needs_decoded_reply ret1 == nil ==> decoded && decodeErr == nil && ret0 != nil && ret0.Err == ""
+//@   ensures @never_nil_nil ret1 != nil || ret0 != nil
+//@   ensures @failure_has_no_response ret1 != nil ==> ret0 == nil
+//@   ensures @usage_classified decoded && decodeErr == nil && rresp.Err != "" && rresp.Usage ==> istype(ret1, token.KeyUsageError)
+//@   ensures @retryable_flag_as_sent decoded && decodeErr == nil && rresp.Err != "" && !rresp.Usage ==> \
+//@        istype(ret1, tokenError) && unbox(ret1, tokenError).Retryable == rresp.Retryable && unbox(ret1, tokenError).Err == rresp.Err
+//@
+//@ func (*WorkerToken).doRetry
+//@   property C15
+//@   ghost attempts int = 0
+//@   ghost lastErr error = nil
+//@   ghost lastResp *workerrpc.Response = nil
+//@   ghost live bool = false
+//@   on call (*WorkerToken).doOnce(_, _, _) ret (r, e): attempts = attempts + 1; lastErr = e; lastResp = r
+//@   on call invoke context.Context.Err(_) ret (e): live = (e == nil)
+//@   before call (*WorkerToken).doOnce(_, _, _): assert @no_attempt_after_cancel attempts == 0 || live
+//@   before call context.WithTimeout(_, d): assert @backoff_bounds 1000000000 <= d && d <= 30100000000
+//@   loop 0 sig "for i := 0; i < retries; i++" invariant attempts == i && 0 <= i && retries <= effRetries(old(t.tconf.Retries)) && (retries >= 0 ==> i <= retries) && (retries < 0 ==> i == 0)
+//@   loop 0 invariant i > 0 ==> lastErr != nil && httperror.Temporary(lastErr) && last == lastErr
+//@   loop 0 invariant 1000000000.0 <= delay && delay <= 30100000000.0
+//@   ensures @attempts_bounded attempts <= effRetries(old(t.tconf.Retries))
+//@   ensures @success_only_if_an_attempt_succeeded err == nil ==> attempts >= 1 && lastErr == nil && rresp == lastResp && rresp != nil
+//@   ensures @never_nil_nil err != nil || rresp != nil
+//@   ensures @permanent_error_returned_at_once attempts >= 1 && lastErr != nil && !httperror.Temporary(lastErr) ==> err == lastErr
+//@   ensures @exhausted_returns_last_error err != nil && attempts == effRetries(old(t.tconf.Retries)) && live ==> err == lastErr
